@@ -7,4 +7,6 @@ require (
 	golang.org/x/image v0.18.0
 )
 
+require github.com/mandykoh/go-parallel v0.1.0 // indirect
+
 replace github.com/mandykoh/prism => /repo
